@@ -300,11 +300,11 @@ func (f *Font) encodeCharstrings() map[string]string {
 	return charStrings
 }
 
-func writeEncoding(encoding []string) string {
+func writeEncoding(encoding []string, glyphs map[string]string) string {
 	if len(encoding) != 256 {
 		return ""
 	}
-	if isStandardEncoding(encoding) {
+	if isStandardEncoding(encoding, glyphs) {
 		return "/Encoding StandardEncoding def\n"
 	}
 
@@ -321,12 +321,23 @@ func writeEncoding(encoding []string) string {
 	return b.String()
 }
 
-func isStandardEncoding(encoding []string) bool {
+// isStandardEncoding reports whether a reader which sees `StandardEncoding`
+// would reconstruct the given encoding.  A code mapped to ".notdef" is only
+// compatible with the standard encoding if the font does not contain the
+// glyph which the standard encoding assigns to this code.
+func isStandardEncoding(encoding []string, glyphs map[string]string) bool {
 	if len(encoding) != 256 {
 		return false
 	}
 	for i, s := range encoding {
-		if s != psenc.StandardEncoding[i] && s != ".notdef" {
+		std := psenc.StandardEncoding[i]
+		if s == std {
+			continue
+		}
+		if s != ".notdef" {
+			return false
+		}
+		if _, present := glyphs[std]; present {
 			return false
 		}
 	}
@@ -363,7 +374,7 @@ var tmpl = template.Must(template.New("type1").Funcs(template.FuncMap{
 /UnderlineThickness {{.UnderlineThickness}} def
 end def
 /FontName {{.FontName|PN}} def
-{{ .Encoding|E -}}
+{{ E .Encoding .CharStrings -}}
 /PaintType 0 def
 /FontType 1 def
 /FontMatrix {{ .FontMatrix }} def
